@@ -141,6 +141,8 @@ def run(ctx: lib.Ctx) -> None:
                 'functions, through Type.from_micheline_value(v.to_micheline_value("optimized")) of the seven Michelson types, and '
                 'through blind_unpack; histories: one value object is compared / sorted / hashed / used as set element or dict key / converted in '
                 'readable, optimized and legacy_optimized mode in random order before the optimized round trip (all seven types), '
+                'byte strings that are both a well-formed optimized form and a PACKed Micheline literal (05 00.., 05 0a.., 05 01.., 05 02.. of length '
+                '4/64/96 and 21/22/33/34/49) through blind_unpack, micheline_value_to_python_object and BytesType.to_python_object(try_unpack); '
                 'and set/map containers of addresses, key hashes and keys are round-tripped through the optimized form. malformed: byte strings of every length 0..24 and around 33/34/49/64/96, valid forms with '
                 'mutated tag/padding bytes, truncations, extensions. non-trivial = every case except the empty byte string; '
                 'distinct = distinct (operation, input)')
@@ -153,7 +155,7 @@ def run(ctx: lib.Ctx) -> None:
     tmeta.append(('domain_rows_ok repo_table && table_ok repo_table', ''))
     xcases, xmeta = [], []   # text level
     reported = 0
-    text_share = ctx.n(0.06, 0.25)
+    text_share = ctx.n(0.03, 0.25)
 
     def report(what, replay, found=True):
         nonlocal reported
@@ -171,7 +173,7 @@ def run(ctx: lib.Ctx) -> None:
     def out_val(idx, payload, ep=b''):
         return f'(Ok ({cnat(idx)}, {chex(payload)}, {chex(ep) if ep else "nil"}))'
 
-    typed_share = ctx.n(0.3, 1.0)
+    typed_share = ctx.n(0.2, 1.0)
 
     def typed(op, k, fl, a, e, expect, what):
         tmeta_all.append(what)
@@ -524,6 +526,46 @@ def run(ctx: lib.Ctx) -> None:
             d = d + bytes([rng.choice([0, 0x61])])
         blobs.append(bytes(d))
 
+    # byte strings that are at once a well-formed optimized form (any 4 bytes = chain id, any 64/96 bytes = signature)
+    # AND a PACKed Micheline expression (0x05 + forged literal): the cascade must still say chain id / signature
+    def packed_of_length(n):
+        out = []
+        if n >= 7:
+            k = n - 6
+            out.append(b'\x05' + F.forge_micheline({'bytes': rb(rng, k).hex()}))
+            out.append(b'\x05' + F.forge_micheline({'string': ''.join(rng.choice('abcXYZ019 ') for _ in range(k))}))
+            if k % 2 == 0:
+                out.append(b'\x05' + F.forge_micheline([{'prim': 'Unit'}] * (k // 2)))
+        if n >= 3:
+            k = n - 2   # zarith integer of exactly k bytes: 6 bits + 7 bits per further byte, top group non-zero
+            bits = 6 + 7 * (k - 1)
+            val = rng.getrandbits(bits) | (1 << (bits - 1)) if k > 1 else rng.getrandbits(6)
+            for sign in (1, -1):
+                b_ = b'\x05' + F.forge_micheline({'int': str(sign * val)})
+                if len(b_) == n:
+                    out.append(b_)
+        if n == 3:
+            out.append(b'\x05\x03\x0b')
+        if n == 4:
+            out += [bytes.fromhex('05008001'), bytes.fromhex('0500ff7f'), bytes.fromhex('0500c001'), b'\x05' + rb(rng, 3)]
+        return [x for x in out if len(x) == n]
+
+    ambiguous = []
+    for n in (3, 4, 5, 21, 22, 33, 34, 49, 64, 96):
+        for _ in range(ctx.n(2, 10)):
+            ambiguous += packed_of_length(n)
+    blobs += ambiguous
+    from pytezos.michelson.micheline import micheline_value_to_python_object
+    from pytezos.michelson.types import BytesType
+
+    def dedicated(d):
+        # what the dedicated readers say, in the order of the property's kinds
+        for fn in (F.unforge_chain_id, F.unforge_address, F.unforge_public_key, F.unforge_signature):
+            ok, r = lib.call(fn, d)
+            if ok:
+                return fn.__name__, r
+        return None, None
+
     def classify(res):
         """blind_unpack's answer -> model [blind] rendering."""
         if isinstance(res, str):
@@ -586,9 +628,22 @@ def run(ctx: lib.Ctx) -> None:
                            {'bytes': d.hex(), 'returned': r, 'forged_again': again.hex() if ok2 else repr(again),
                             'repro': f'pytezos.michelson.forge.unforge_address(bytes.fromhex({d.hex()!r}))'})
         ok, r = lib.call(blind_unpack, d)
-        ctx.case(('blind_unpack', d), nontrivial=len(d) > 0, kind=f'blind_unpack:{type(r).__name__}')
-        if ok and not d.startswith(b'\x05'):
+        ctx.case(('blind_unpack', d), nontrivial=len(d) > 0, kind=f'blind_unpack:{type(r).__name__}{":packed" if d[:1] == bytes([5]) else ""}')
+        if ok:
             typed(8, 0, False, d, b'', classify(r), ('blind_unpack', d.hex()))
+        # (B) a byte string that a dedicated reader accepts is that value for every untyped reader
+        who, want = dedicated(d)
+        if who is not None:
+            readers = [('blind_unpack', (ok, r)),
+                       ('micheline_value_to_python_object', lib.call(micheline_value_to_python_object, {'bytes': d.hex()})),
+                       ('BytesType.to_python_object(try_unpack=True)',
+                        lib.call(lambda: BytesType.from_micheline_value({'bytes': d.hex()}).to_python_object(try_unpack=True)))]
+            for rname, (rok, rval) in readers:
+                if not rok or rval != want:
+                    report(f'{rname} mistakes a well-formed optimized form ({who[8:]}) for something else',
+                           {'bytes': d.hex(), 'expected': want, 'returned': repr(rval), 'reader': rname,
+                            'repro': f"from pytezos.michelson.micheline import blind_unpack; blind_unpack(bytes.fromhex({d.hex()!r}))"})
+                    break
     # blind_unpack on the valid forms: the category must be the right one (B)
     for (name, hx_) in [m[:2] for m in tmeta_all if m[0] in ('unforge_address', 'unforge_public_key', 'unforge_signature', 'unforge_chain_id')][:ctx.n(150, 1500)]:
         d = bytes.fromhex(hx_)
